@@ -404,8 +404,9 @@ def _around(bs):
 BASE_1D = [0.0, EPS, 0.5, 1.0 - EPS, 1.0]
 
 
-def unit_lattice(spec, reduced=False):
-    """List of encoded vectors (lists of floats of length enc_size) for the decode check."""
+def unit_lattice(spec, reduced=False, fine=False):
+    """List of encoded vectors (lists of floats of length enc_size) for the decode check.
+    reduced: 5 vectors per domain (spaces of several domains); fine: j/64 instead of j/8 (thorough tier)."""
     c = spec[0]
     k = enc_size(spec)
     if k != 1 or (c == "choice" and len(spec[1]) == 1):
@@ -433,7 +434,8 @@ def unit_lattice(spec, reduced=False):
             mids = [0.5 * (u + v) for u, v in zip(cats[:-1], cats[1:])]
             pts += _around([(m - a) / (b - a) for m in mids])
             pts += [(x - a) / (b - a) for x in cats]
-    pts += [j / 8.0 for j in range(1, 8)]
+    m = 64 if fine else 8
+    pts += [j / float(m) for j in range(1, m)]
     return [[x] for x in sorted(set(pts))]
 
 
@@ -554,10 +556,11 @@ def lattice(tier):
     L["qf"] = [1, 2, 3, 4, 0.25, 0.1]
     L["qi"] = [1, 2, 3, 4]
     if tier != "quick":
-        L["fb"] = sorted(L["fb"] + [1e-3, 1.0 / 3.0, 2, 17, 100, 123.456, 2 ** 26, 2 ** 31], key=float)
-        L["ib"] = sorted(L["ib"] + [2, 17, 64, 2 ** 26, 2 ** 31])
+        L["fb"] = sorted(L["fb"] + [1e-5, 1e-3, 1.0 / 3.0, 0.7, 2, 5, 17, 100, 123.456, 1e6, 2 ** 26, 2 ** 31],
+                         key=float)
+        L["ib"] = sorted(L["ib"] + [2, 5, 17, 64, 100, 65536, 2 ** 26, 2 ** 31])
         L["rb"] = L["rb"] + [0.9, 1 - 1e-8]
-        L["sizes"] = [1, 2, 3, 4, 7, 10, 20]
+        L["sizes"] = [1, 2, 3, 4, 5, 7, 10, 20, 50]
         L["qf"] = [1, 2, 3, 4, 5, 0.25, 0.5, 0.1]
         L["qi"] = [1, 2, 3, 4, 5, 7]
     return L
@@ -572,6 +575,16 @@ def _pairs(vals):
             if a < b or (a == b and i <= j):
                 out.append((a, b))
     return out
+
+
+def category_lists(tier):
+    inc_i, inc_f = list(INT_CATS_INC), list(FLT_CATS_INC)
+    strs, uns = list(STR_CATS), INT_CATS_UNS + FLT_CATS_UNS
+    if tier != "quick":
+        inc_i += [[1, 2, 5, 10, 20, 50], [8, 16, 32, 64, 128]]
+        inc_f += [[0.0005, 0.001, 0.005, 0.01, 0.05, 0.1], [1.0, 1.0000001, 1.0000002], [0.25, 0.5, 1.0, 2.0, 4.0]]
+        strs += [["e", "d", "c", "b", "a"]]
+    return strs, inc_i, inc_f, uns
 
 
 def all_specs(tier):
@@ -602,10 +615,11 @@ def all_specs(tier):
             specs.append(["qrandint", lo, hi, q])
             if lo > 0:
                 specs.append(["qlograndint", lo, hi, q])
-    for cats in STR_CATS + INT_CATS_INC + INT_CATS_UNS + FLT_CATS_INC + FLT_CATS_UNS:
+    strs, inc_i, inc_f, uns = category_lists(tier)
+    for cats in strs + inc_i + inc_f + uns:
         specs.append(["choice", cats])
         specs.append(["ordinal", cats, "equal"])
-    for cats in INT_CATS_INC + FLT_CATS_INC:
+    for cats in inc_i + inc_f:
         specs.append(["ordinal", cats, "nn"])
         if cats[0] > 0:
             specs.append(["ordinal", cats, "nn-log"])
